@@ -866,6 +866,20 @@ func (c *SpecCtx) callExpr(e *ECall) SVal {
 		g.noteAbsHeap("$beq-1")
 		g.noteAbsHeap("$beq-2")
 		return SVal{T: fake.strEq(c.st, x.T, y.T), Ty: tyBoolT}
+	case "erris":
+		// erris(err, target): errors.Is(err, target), the same uninterpreted relation the
+		// model of errors.Is uses (reflexive; a nil err matches only a nil target)
+		if !need(2) {
+			return SVal{}
+		}
+		{
+			x, y := argv(0), argv(1)
+			if x.T.Sort != SIface || y.T.Sort != SIface {
+				return c.fail("%s: erris() needs two error values", c.where)
+			}
+			g.declareFun("err_is", []string{SIface, SIface}, SBool)
+			return SVal{T: and(or(eq(x.T, y.T), app(SBool, "err_is", x.T, y.T)), not(eq(x.T, nilIface))), Ty: tyBoolT}
+		}
 	case "dynptr":
 		// dynptr(i): the pointer held by interface value i (its dynamic value when that is a
 		// pointer); `dynptr(r) != nil` excludes typed-nil interface values
